@@ -8,7 +8,7 @@
    defects stay replayable witnesses). *)
 From Coq Require Import ZArith List Bool Permutation Sorted.
 From Verif Require Import Common.ListIdx Common.PyList Model.C09.
-From Verif Require Import Proofs.C09_split Proofs.C09_join.
+From Verif Require Import Proofs.C09_split Proofs.C09_join Proofs.C09_joinsplit.
 Import ListNotations.
 Open Scope Z_scope.
 
@@ -168,6 +168,27 @@ Theorem C09_join_logs_retained :
       In (1 + Z.of_nat i, lg) (j_logs j).
 Proof. exact join_logs_retained. Qed.
 Print Assumptions C09_join_logs_retained.
+
+(* ---- join of split ---------------------------------------------------------------- *)
+
+(* Joining the parts of a split (any N > 0, any k > 0), given in order,
+   succeeds, exports the innate features and reproduces every column other
+   than index_online (index: 1..N). *)
+Theorem C09_join_of_split :
+  forall (m : meas) (n k : Z),
+    0 < k -> 0 < n -> wf_meas m ->
+    (forall f c, lookup_col f (m_cols m) = Some c -> Z.of_nat (length c) = n) ->
+    exists j,
+      join_fixed (split_meas m n k) = Ok j
+      /\ j_feats j = py_sorted Z.leb (m_innate m)
+      /\ forall f, In f (m_innate m) ->
+           (kind f <> 3 -> kind f <> 4 ->
+            lookup_col f (j_cols j) = lookup_col f (m_cols m))
+           /\ (kind f = 4 ->
+               lookup_col f (j_cols j)
+               = Some (map (fun i => 1 + Z.of_nat i) (seq 0 (Z.to_nat n)))).
+Proof. exact join_of_split. Qed.
+Print Assumptions C09_join_of_split.
 
 (* ---- the code before the fix ----------------------------------------------------- *)
 
